@@ -40,7 +40,7 @@ PER_UNIT = {"quick": 6, "thorough": 12}
 
 def bound_text(tier, seed):
     if tier == "quick":
-        return ("all 13 classes; configurations with <= 2 coordinates (constructor options, parameters, "
+        return ("all 13 classes; configurations with <= 3 coordinates (constructor options, parameters, "
                 "constants) off the default call; 53-point general x-lattice (+ class specific edge/branch "
                 "points, Logit 60-point unit lattice); Softmax all rows of dimension 1-3 over "
                 "{0.01,0.1,0.2,0.3,seed value} with sum < 1; 4 parameter routes + reused object; seed %d "
